@@ -59,6 +59,12 @@ func _newSubordinateEnvWithBinds(outer *Env, binds_mt types.MalType, exprs_mt ty
 		var varargs bool
 		i := 0
 		for ; i < len(binds); i++ {
+			if !types.Q[types.Symbol](binds[i]) {
+				return nil, lisperror.NewLispError(fmt.Errorf("parameter names must be symbols (found %T)", binds[i]), nil)
+			}
+			if binds[i].(types.Symbol).Val == "&" && (i+1 >= len(binds) || !types.Q[types.Symbol](binds[i+1])) {
+				return nil, lisperror.NewLispError(errors.New("'&' must be followed by the name of the rest parameter"), nil)
+			}
 			if types.Q[types.Symbol](binds[i]) && binds[i].(types.Symbol).Val == "&" {
 				env.data[binds[i+1].(types.Symbol).Val] = types.List{Val: exprs[i:]}
 				varargs = true
